@@ -1,9 +1,12 @@
 (* metadata/BlockList_proofs.v — BlockIterator / write_blocks theorems. *)
-From FlacMeta Require Import Bytes Bytes_proofs Blocks BlockList Blocks_proofs.
+From FlacMeta Require Import Bytes Bytes_proofs Blocks BlockList Blocks_proofs Blocks_proofs2 Blocks_level.
 Open Scope N_scope.
 
 Section ListLevel.
 Variable utf8_valid : list N -> bool.
+Hypothesis utf8_ascii : forall s, Forall (fun b => b < 128) s -> utf8_valid s = true.
+
+Local Notation ty_block := (ty_block utf8_valid).
 
 Lemma lenN_write_header h : lenN (write_header h) = 4.
 Proof.
@@ -12,27 +15,27 @@ Proof.
 Qed.
 
 (* one block: header + body is read back, the stream continues after it *)
-Lemma block_write_read last b bs rest : covered b -> ty_block b -> canon_block b ->
+Lemma block_write_read last b bs rest : ty_block b -> canon_block b ->
   write_block last b = Ok bs ->
   read_block utf8_valid (bs ++ rest) = Ok (last, b, rest).
 Proof.
-  intros Cv T C W. destruct (write_block_inv last b bs Cv T W) as (body & Wb & Le & Sz & ->).
+  intros T C W. destruct (write_block_inv utf8_valid last b bs T W) as (body & Wb & Le & Sz & ->).
   unfold read_block. rewrite <- app_assoc.
   rewrite read_header_write by (cbn [h_size]; unfold BLOCKSIZE_MAX in Le; change (2 ^ 24) with 16777216; lia).
   cbn [h_size h_type h_last]. rewrite takeN_app, dropN_app.
-  pose proof (body_write_read utf8_valid b body [] Cv T C Wb) as R. rewrite app_nil_r in R. rewrite R.
+  pose proof (body_write_read utf8_valid utf8_ascii b body [] T C Wb) as R. rewrite app_nil_r in R. rewrite R.
   cbn [lenN]. replace (lenN body - (lenN body - 0)) with 0 by lia. reflexivity.
 Qed.
 
 (* what read_block returns can be written again, and reads back the same *)
 Lemma read_body_inv ty size body b leftover : Forall byte body ->
-  read_body utf8_valid ty size body = Ok (b, leftover) -> covered b ->
+  read_body utf8_valid ty size body = Ok (b, leftover) ->
   size <= BLOCKSIZE_MAX ->
   ty = block_type b /\ ty_block b /\ canon_block b /\
   exists bs', write_body b = Ok bs' /\ lenN body = lenN bs' + lenN leftover.
 Proof.
-  intros Hb H Cv Hsz. destruct ty; cbn [read_body] in H; inv_bind H; unfold pret in H; apply Ok_inj in H;
-    injection H as H1 H2; subst b s; try contradiction; cbn [block_type ty_block canon_block write_body].
+  intros Hb H Hsz. destruct ty; cbn [read_body] in H; inv_bind H; unfold pret in H; apply Ok_inj in H;
+    injection H as H1 H2; subst b s; cbn [block_type Blocks_level.ty_block canon_block write_body].
   - apply streaminfo_read_inv in E; [|exact Hb]. destruct E as (T & C & bs & W & ->).
     split; [reflexivity|]. split; [exact T|]. split; [exact C|]. exists bs. rewrite lenN_app. auto.
   - apply padding_read_inv in E. destruct E as (-> & c & -> & Lc).
@@ -43,14 +46,20 @@ Proof.
     rewrite !lenN_app. lia.
   - apply seektable_read_inv in E; [|exact Hb]. destruct E as (T & Hs & W & Len & _).
     split; [reflexivity|]. split; [exact T|]. split; [exact I|]. eexists. split; [exact W|]. exact Len.
+  - apply vorbis_read_inv in E; [|exact Hb]. destruct E as (T & bs & W & Len).
+    split; [reflexivity|]. split; [exact T|]. split; [exact I|]. exists bs. auto.
+  - apply cuesheet_read_inv in E; [|exact Hb]. destruct E as (T & bs & W & Len).
+    split; [reflexivity|]. split; [exact T|]. split; [exact I|]. exists bs. auto.
+  - apply picture_read_inv in E; [|exact Hb]. destruct E as (T & bs & W & ->).
+    split; [reflexivity|]. split; [exact T|]. split; [exact I|]. exists bs. rewrite lenN_app. auto.
 Qed.
 
 Lemma read_block_inv s last b rest : Forall byte s ->
-  read_block utf8_valid s = Ok (last, b, rest) -> covered b ->
+  read_block utf8_valid s = Ok (last, b, rest) ->
   ty_block b /\ canon_block b /\ Forall byte rest /\ (lenN rest + 4 <= lenN s) /\
   exists bs', write_block last b = Ok bs' /\ lenN bs' + lenN rest = lenN s.
 Proof.
-  intros Hs H Cv. unfold read_block in H.
+  intros Hs H. unfold read_block in H.
   destruct (read_header s) as [[h s1]| |] eqn:RH; try discriminate.
   apply read_header_inv in RH; [|exact Hs]. destruct RH as [-> Hsz].
   pose proof (Forall_app_r _ _ _ Hs) as Hs1.
@@ -61,7 +70,7 @@ Proof.
   assert (Hb : Forall byte (takeN (h_size h) s1)).
   { rewrite <- (takeN_dropN (h_size h) s1) in Hs1. eapply Forall_app_l. exact Hs1. }
   change (2 ^ 24) with 16777216 in Hsz.
-  apply read_body_inv in RB; [|exact Hb|exact Cv|unfold BLOCKSIZE_MAX; lia].
+  apply read_body_inv in RB; [|exact Hb|unfold BLOCKSIZE_MAX; lia].
   destruct RB as (Ety & T & C & bs' & W & Lbs).
   assert (Lb : lenN (takeN (h_size h) s1) = h_size h /\ lenN bs' = h_size h) by lia.
   destruct Lb as [Lb Lbs'].
@@ -71,7 +80,7 @@ Proof.
   { rewrite <- (takeN_dropN (h_size h) s1) at 1. rewrite lenN_app, Lb. reflexivity. }
   split; [exact T|]. split; [exact C|]. split; [exact Hrest|].
   split. { rewrite lenN_app, lenN_write_header. lia. }
-  unfold write_block. pose proof (body_size_write b' Cv T) as S. rewrite W in S. rewrite S. cbn [bind].
+  unfold write_block. pose proof (body_size_write utf8_valid b' T) as S. rewrite W in S. rewrite S. cbn [bind].
   rewrite Lbs'. destruct (N.ltb_spec BLOCKSIZE_MAX (h_size h)) as [Hx|_]; [unfold BLOCKSIZE_MAX in Hx; lia|].
   rewrite W. cbn [bind]. eexists. split; [reflexivity|].
   rewrite !lenN_app, !lenN_write_header. lia.
@@ -124,19 +133,19 @@ Proof.
 Qed.
 
 Lemma collect_write_rest : forall l sk vc png icon bs tail acc fuel,
-  Forall covered l -> Forall ty_block l -> Forall canon_block l ->
+  Forall ty_block l -> Forall canon_block l ->
   write_rest sk vc png icon l = Ok bs ->
   (length l <= length fuel)%nat ->
   collect utf8_valid fuel
     (mkIter (bs ++ tail) false true true sk vc png icon (match l with [] => true | _ => false end)) acc
   = Ok (rev acc ++ l).
 Proof.
-  induction l as [|b l IH]; intros sk vc png icon bs tail acc fuel Cv T C W F.
+  induction l as [|b l IH]; intros sk vc png icon bs tail acc fuel T C W F.
   - destruct fuel; cbn; rewrite app_nil_r; reflexivity.
   - apply write_rest_cons in W. destruct W as (x & y & sk' & vc' & png' & icon' & Wb & Wr & -> & Fl).
-    inversion Cv as [|? ? Cb Cl]; inversion T as [|? ? Tb Tl]; inversion C as [|? ? Nb Nl]; subst.
+    inversion T as [|? ? Tb Tl]; inversion C as [|? ? Nb Nl]; subst.
     destruct fuel as [|f0 fuel]; [cbn in F; lia|].
-    pose proof (block_write_read _ b x (y ++ tail) Cb Tb Nb Wb) as RB. rewrite app_assoc in RB.
+    pose proof (block_write_read _ b x (y ++ tail) Tb Nb Wb) as RB. rewrite app_assoc in RB.
     cbn [collect]. unfold iter_next. cbn [it_failed it_tag_read negb].
     unfold next_tagged. cbn [it_streaminfo_read negb]. unfold it_read_block. cbn [it_finished it_reader].
     rewrite RB.
@@ -144,7 +153,7 @@ Proof.
     assert (IH' : collect utf8_valid fuel
               (mkIter (y ++ tail) false true true sk' vc' png' icon' (match l with [] => true | _ => false end)) (b :: acc)
             = Ok (rev acc ++ b :: l)).
-    { rewrite (IH sk' vc' png' icon' y tail (b :: acc) fuel Cl Tl Nl Wr); [|cbn in F; lia].
+    { rewrite (IH sk' vc' png' icon' y tail (b :: acc) fuel Tl Nl Wr); [|cbn in F; lia].
       cbn [rev]. rewrite <- app_assoc. reflexivity. }
     destruct b as [si|n|a|pts|v|c|pic]; try contradiction;
       repeat match goal with
@@ -166,35 +175,37 @@ Lemma take_tag rest : take 4 (FLAC_TAG ++ rest) = Ok (FLAC_TAG, rest).
 Proof. apply take_app_len. reflexivity. Qed.
 
 Theorem write_blocks_read_blocks l bs tail :
-  Forall covered l -> Forall ty_block l -> Forall canon_block l ->
+  Forall ty_block l -> Forall canon_block l ->
   write_blocks l = Ok bs -> read_blocks utf8_valid (bs ++ tail) = Ok l.
 Proof.
-  intros Cv T C W. unfold write_blocks in W.
+  intros T C W. unfold write_blocks in W.
   destruct l as [|b r]; [discriminate|]. destruct b as [si| | | | | |]; try discriminate.
   destruct (write_block (match r with [] => true | _ => false end) (BStreaminfo si)) as [x| |] eqn:Wb;
     cbn [bind] in W; try discriminate.
   destruct (write_rest false false false false r) as [y| |] eqn:Wr; cbn [bind] in W; try discriminate.
   apply Ok_inj in W. subst bs.
-  inversion Cv as [|? ? Cb Cl]; inversion T as [|? ? Tb Tl]; inversion C as [|? ? Nb Nl]; subst.
+  inversion T as [|? ? Tb Tl]; inversion C as [|? ? Nb Nl]; subst.
   unfold read_blocks. rewrite <- !app_assoc. cbn [collect].
   unfold iter_next, iter_new. cbn [it_failed it_tag_read it_reader negb].
   rewrite take_tag. cbn [forallb combine FLAC_TAG fst snd N.eqb Pos.eqb andb].
   cbn [it_failed it_tag_read it_streaminfo_read it_seektable_read it_vorbiscomment_read it_png_read it_icon_read it_finished it_reader].
   unfold next_tagged. cbn [it_streaminfo_read negb]. unfold it_read_block. cbn [it_finished it_reader].
-  rewrite (block_write_read _ _ x (y ++ tail) Cb Tb Nb Wb).
+  rewrite (block_write_read _ _ x (y ++ tail) Tb Nb Wb).
   cbn [it_failed it_tag_read it_streaminfo_read it_seektable_read it_vorbiscomment_read it_png_read it_icon_read it_finished it_reader].
-  rewrite (collect_write_rest r false false false false y tail [BStreaminfo si] _ Cl Tl Nl Wr).
+  rewrite (collect_write_rest r false false false false y tail [BStreaminfo si] _ Tl Nl Wr).
   - reflexivity.
   - apply write_rest_length in Wr. rewrite !app_length. cbn [length FLAC_TAG]. lia.
 Qed.
 
 (* ---- the reverse direction *)
+Lemma read_block_rest_bytes s last b rest : Forall byte s -> read_block utf8_valid s = Ok (last, b, rest) -> Forall byte rest.
+Proof. intros Hs H. pose proof (read_block_inv s last b rest Hs H). tauto. Qed.
+
 Lemma collect_inv : forall fuel s sk vc png icon fin acc out,
   Forall byte s ->
   collect utf8_valid fuel (mkIter s false true true sk vc png icon fin) acc = Ok out ->
   exists l, out = rev acc ++ l /\ fin = match l with [] => true | _ => false end /\
-    (Forall covered l ->
-       Forall ty_block l /\ Forall canon_block l /\ exists bs', write_rest sk vc png icon l = Ok bs').
+    Forall ty_block l /\ Forall canon_block l /\ exists bs', write_rest sk vc png icon l = Ok bs'.
 Proof.
   induction fuel as [|f0 fuel IH]; intros s sk vc png icon fin acc out Hs H.
   - cbn [collect] in H. unfold iter_next in H. cbn [it_failed it_tag_read negb] in H.
@@ -202,7 +213,7 @@ Proof.
     cbn [it_finished it_reader] in H.
     destruct fin.
     + apply Ok_inj in H. subst out. exists []. rewrite app_nil_r. split; [reflexivity|]. split; [reflexivity|].
-      intros _. split; [constructor|]. split; [constructor|]. exists []. reflexivity.
+      split; [constructor|]. split; [constructor|]. exists []. reflexivity.
     + destruct (read_block utf8_valid s) as [[[last b] rest]| |]; [|discriminate|discriminate].
       destruct b as [si|n|a|pts|v|c|pic];
         cbn [it_failed it_tag_read it_streaminfo_read it_seektable_read it_vorbiscomment_read it_png_read it_icon_read it_finished it_reader] in H;
@@ -215,32 +226,19 @@ Proof.
     cbn [it_finished it_reader] in H.
     destruct fin.
     + apply Ok_inj in H. subst out. exists []. rewrite app_nil_r. split; [reflexivity|]. split; [reflexivity|].
-      intros _. split; [constructor|]. split; [constructor|]. exists []. reflexivity.
+      split; [constructor|]. split; [constructor|]. exists []. reflexivity.
     + destruct (read_block utf8_valid s) as [[[last b] rest]| |] eqn:RB; [|discriminate|discriminate].
       assert (Step : forall sk' vc' png' icon',
         collect utf8_valid fuel (mkIter rest false true true sk' vc' png' icon' last) (b :: acc) = Ok out ->
-        write_rest sk vc png icon (b :: nil) <> Err EOther \/ True ->
-        (forall l bs', covered b -> write_block (match l with [] => true | _ => false end) b = Ok bs' ->
+        (forall l bs', write_block (match l with [] => true | _ => false end) b = Ok bs' ->
                        forall y, write_rest sk' vc' png' icon' l = Ok y ->
                        exists z, write_rest sk vc png icon (b :: l) = Ok z) ->
         exists l, out = rev acc ++ l /\ false = match l with [] => true | _ => false end /\
-          (Forall covered l -> Forall ty_block l /\ Forall canon_block l /\ exists bs', write_rest sk vc png icon l = Ok bs')).
-      { intros sk' vc' png' icon' Hc _ Hw.
-        assert (Hrest : covered b -> Forall byte rest).
-        { intros Cb. pose proof (read_block_inv s last b rest Hs RB Cb). tauto. }
-        (* the tail of the stream is bytes regardless of coverage *)
-        assert (Hrest' : Forall byte rest).
-        { unfold read_block in RB. destruct (read_header s) as [[h s1]| |] eqn:RH; try discriminate.
-          apply read_header_inv in RH; [|exact Hs]. destruct RH as [-> _]. apply Forall_app_r in Hs.
-          destruct (read_body utf8_valid (h_type h) (h_size h) (takeN (h_size h) s1)) as [[b' lo]| |]; try discriminate.
-          destruct (h_size h - (lenN (takeN (h_size h) s1) - lenN lo) =? 0); [|discriminate].
-          apply Ok_inj in RB. injection RB as _ _ <-.
-          rewrite <- (takeN_dropN (h_size h) s1) in Hs. eapply Forall_app_r. exact Hs. }
-        apply IH in Hc; [|exact Hrest']. destruct Hc as (l & -> & Hfin & Hl).
+          Forall ty_block l /\ Forall canon_block l /\ exists bs', write_rest sk vc png icon l = Ok bs').
+      { intros sk' vc' png' icon' Hc Hw.
+        destruct (read_block_inv s last b rest Hs RB) as (Tb & Nb & Hrest & _ & bs' & Wb & _).
+        apply IH in Hc; [|exact Hrest]. destruct Hc as (l & -> & Hfin & Tl & Nl & y & Wy).
         exists (b :: l). cbn [rev]. rewrite <- app_assoc. split; [reflexivity|]. split; [reflexivity|].
-        intros Cv. pose proof (Forall_inv Cv) as Cb. pose proof (Forall_inv_tail Cv) as Cl.
-        destruct (Hl Cl) as (Tl & Nl & y & Wy).
-        destruct (read_block_inv s last b rest Hs RB Cb) as (Tb & Nb & _ & _ & bs' & Wb & _).
         split; [constructor; assumption|]. split; [constructor; assumption|].
         rewrite Hfin in Wb. eapply Hw; eauto. }
       destruct b as [si|n|a|pts|v|c|pic];
@@ -249,8 +247,8 @@ Proof.
                | context [pic_type ?q =? ?k] => destruct (pic_type q =? k) eqn:?
                | context [negb ?f] => destruct f; cbn [negb] in H
                end; try discriminate;
-        (eapply Step; [exact H|right; exact I|]);
-        intros l bs' Cb Wb y Wy; cbn [write_rest];
+        (eapply Step; [exact H|]);
+        intros l bs' Wb y Wy; cbn [write_rest];
         repeat match goal with
                | E : (pic_type ?q =? ?k) = _ |- _ => rewrite E; clear E
                end;
@@ -267,11 +265,11 @@ Proof.
 Qed.
 
 Theorem read_blocks_write_blocks bs l : Forall byte bs ->
-  read_blocks utf8_valid bs = Ok l -> Forall covered l ->
+  read_blocks utf8_valid bs = Ok l ->
   Forall ty_block l /\ Forall canon_block l /\
   exists bs', write_blocks l = Ok bs' /\ read_blocks utf8_valid bs' = Ok l.
 Proof.
-  intros Hs H Cv. unfold read_blocks in H. cbn [collect] in H.
+  intros Hs H. unfold read_blocks in H. cbn [collect] in H.
   unfold iter_next, iter_new in H. cbn [it_failed it_tag_read it_reader negb] in H.
   destruct (take 4 bs) as [[tag rest]| |] eqn:TK; [|discriminate|discriminate].
   apply take_ok in TK. destruct TK as [-> Lt]. pose proof (Forall_app_r _ _ _ Hs) as Hr.
@@ -281,62 +279,47 @@ Proof.
   destruct (read_block utf8_valid rest) as [[[last b] rest']| |] eqn:RB; [|discriminate|discriminate].
   destruct b as [si| | | | | |]; try discriminate.
   cbn [it_failed it_tag_read it_streaminfo_read it_seektable_read it_vorbiscomment_read it_png_read it_icon_read it_finished it_reader] in H.
-  destruct (read_block_inv rest last (BStreaminfo si) rest' Hr RB I) as (Tb & Nb & Hr' & _ & x & Wx & _).
-  apply collect_inv in H; [|exact Hr']. destruct H as (l' & -> & Hfin & Hl).
-  cbn [rev app] in *. pose proof (Forall_inv_tail Cv) as Cl. destruct (Hl Cl) as (Tl & Nl & y & Wy).
+  destruct (read_block_inv rest last (BStreaminfo si) rest' Hr RB) as (Tb & Nb & Hr' & _ & x & Wx & _).
+  apply collect_inv in H; [|exact Hr']. destruct H as (l' & -> & Hfin & Tl & Nl & y & Wy).
+  cbn [rev app] in *.
   assert (W : write_blocks (BStreaminfo si :: l') = Ok (FLAC_TAG ++ x ++ y)).
   { unfold write_blocks. rewrite <- Hfin, Wx, Wy. reflexivity. }
   split; [constructor; assumption|]. split; [constructor; assumption|].
   eexists. split; [exact W|].
   rewrite <- (app_nil_r (FLAC_TAG ++ x ++ y)).
-  apply write_blocks_read_blocks; try exact W; try (constructor; assumption). exact Cv.
+  apply write_blocks_read_blocks; try exact W; constructor; assumption.
 Qed.
 
 (* ---- writers never panic on typed values; rule-breaking lists are refused *)
-Lemma write_body_no_panic b : covered b -> ty_block b -> is_panic (write_body b) = false.
+Lemma write_block_no_panic last b : ty_block b -> is_panic (write_block last b) = false.
 Proof.
-  intros Cv T. destruct b as [si|n|a|l|v|c|x]; try contradiction; cbn [write_body ty_block] in *.
-  - unfold write_streaminfo. destruct T as (_ & _ & _ & _ & _ & _ & [T7 T7'] & _).
-    repeat match goal with |- context [if ?c then _ else _] => destruct c; [reflexivity|] end.
-    unfold bitcount_checked_sub.
-    destruct (N.leb_spec 1 (si_bps si)); [|lia]. destruct (N.leb_spec (si_bps si - 1) 31); [|lia].
-    destruct (negb _); reflexivity.
-  - reflexivity.
-  - reflexivity.
-  - unfold write_seektable. pose proof (check_seekpoints_spec l None) as H.
-    destruct (write_seekpoints None l); [reflexivity|reflexivity|contradiction].
-Qed.
-
-Lemma write_block_no_panic last b : covered b -> ty_block b -> is_panic (write_block last b) = false.
-Proof.
-  intros Cv T. unfold write_block. pose proof (body_size_write b Cv T) as S.
-  pose proof (write_body_no_panic b Cv T) as P.
+  intros T. unfold write_block. pose proof (body_size_write utf8_valid b T) as S.
+  pose proof (write_body_no_panic utf8_valid b T) as P.
   destruct (write_body b) as [body|e|k]; [|destruct S as [e' S]|discriminate]; rewrite S; cbn [bind]; [|reflexivity].
   destruct (BLOCKSIZE_MAX <? lenN body); reflexivity.
 Qed.
 
-Lemma write_rest_no_panic : forall l sk vc png icon, Forall covered l -> Forall ty_block l ->
+Lemma write_rest_no_panic : forall l sk vc png icon, Forall ty_block l ->
   is_panic (write_rest sk vc png icon l) = false.
 Proof.
-  induction l as [|b l IH]; intros sk vc png icon Cv T; [reflexivity|].
-  pose proof (Forall_inv Cv) as Cb. pose proof (Forall_inv_tail Cv) as Cl.
+  induction l as [|b l IH]; intros sk vc png icon T; [reflexivity|].
   pose proof (Forall_inv T) as Tb. pose proof (Forall_inv_tail T) as Tl.
   assert (G : forall sk' vc' png' icon',
     is_panic (x <- write_block (match l with [] => true | _ => false end) b ;;
               y <- write_rest sk' vc' png' icon' l ;; Ok (x ++ y))%res = false).
-  { intros. pose proof (write_block_no_panic (match l with [] => true | _ => false end) b Cb Tb) as P.
+  { intros. pose proof (write_block_no_panic (match l with [] => true | _ => false end) b Tb) as P.
     destruct (write_block _ b); try discriminate; cbn [bind]; [|reflexivity].
-    pose proof (IH sk' vc' png' icon' Cl Tl) as Q. destruct (write_rest sk' vc' png' icon' l); try discriminate; reflexivity. }
+    pose proof (IH sk' vc' png' icon' Tl) as Q. destruct (write_rest sk' vc' png' icon' l); try discriminate; reflexivity. }
   cbn [write_rest]. destruct b; try reflexivity; try apply G;
     repeat match goal with |- context [if ?c then _ else _] => destruct c end; try reflexivity; apply G.
 Qed.
 
-Theorem write_blocks_no_panic l : Forall covered l -> Forall ty_block l -> is_panic (write_blocks l) = false.
+Theorem write_blocks_no_panic l : Forall ty_block l -> is_panic (write_blocks l) = false.
 Proof.
-  intros Cv T. unfold write_blocks. destruct l as [|b r]; [reflexivity|]. destruct b; try reflexivity.
-  pose proof (write_block_no_panic (match r with [] => true | _ => false end) _ (Forall_inv Cv) (Forall_inv T)) as P.
+  intros T. unfold write_blocks. destruct l as [|b r]; [reflexivity|]. destruct b; try reflexivity.
+  pose proof (write_block_no_panic (match r with [] => true | _ => false end) _ (Forall_inv T)) as P.
   destruct (write_block _ _); try discriminate; cbn [bind]; [|reflexivity].
-  pose proof (write_rest_no_panic r false false false false (Forall_inv_tail Cv) (Forall_inv_tail T)) as Q.
+  pose proof (write_rest_no_panic r false false false false (Forall_inv_tail T)) as Q.
   destruct (write_rest _ _ _ _ r); try discriminate; reflexivity.
 Qed.
 
@@ -383,23 +366,23 @@ Proof.
 Qed.
 
 (* size rule: no block of an accepted list has a body longer than 2^24 - 1 bytes *)
-Theorem write_blocks_sizes : forall l bs, Forall covered l -> Forall ty_block l -> write_blocks l = Ok bs ->
+Theorem write_blocks_sizes : forall l bs, Forall ty_block l -> write_blocks l = Ok bs ->
   Forall (fun b => exists body, write_body b = Ok body /\ lenN body <= BLOCKSIZE_MAX) l.
 Proof.
-  assert (R : forall l sk vc png icon bs, Forall covered l -> Forall ty_block l ->
+  assert (R : forall l sk vc png icon bs, Forall ty_block l ->
               write_rest sk vc png icon l = Ok bs ->
               Forall (fun b => exists body, write_body b = Ok body /\ lenN body <= BLOCKSIZE_MAX) l).
-  { induction l as [|b l IH]; intros sk vc png icon bs Cv T W; [constructor|].
+  { induction l as [|b l IH]; intros sk vc png icon bs T W; [constructor|].
     apply write_rest_cons in W. destruct W as (x & y & sk' & vc' & png' & icon' & Wb & Wr & _ & _).
     constructor.
-    - destruct (write_block_inv _ b x (Forall_inv Cv) (Forall_inv T) Wb) as (body & ? & ? & _). eauto.
-    - eapply IH; [exact (Forall_inv_tail Cv)|exact (Forall_inv_tail T)|exact Wr]. }
-  intros l bs Cv T W. unfold write_blocks in W. destruct l as [|b r]; [discriminate|]. destruct b; try discriminate.
+    - destruct (write_block_inv utf8_valid _ b x (Forall_inv T) Wb) as (body & ? & ? & _). eauto.
+    - eapply IH; [exact (Forall_inv_tail T)|exact Wr]. }
+  intros l bs T W. unfold write_blocks in W. destruct l as [|b r]; [discriminate|]. destruct b; try discriminate.
   destruct (write_block _ _) as [x| |] eqn:Wb; cbn [bind] in W; try discriminate.
   destruct (write_rest false false false false r) as [y| |] eqn:Wr; cbn [bind] in W; try discriminate.
   constructor.
-  - destruct (write_block_inv _ _ x (Forall_inv Cv) (Forall_inv T) Wb) as (body & ? & ? & _). eauto.
-  - eapply R; [exact (Forall_inv_tail Cv)|exact (Forall_inv_tail T)|exact Wr].
+  - destruct (write_block_inv utf8_valid _ _ x (Forall_inv T) Wb) as (body & ? & ? & _). eauto.
+  - eapply R; [exact (Forall_inv_tail T)|exact Wr].
 Qed.
 End ListLevel.
 
@@ -411,7 +394,9 @@ Definition known_class (b : block) : Prop :=
   end.
 
 Definition C11_statement_full : Prop :=
-  forall (utf8_valid : list N -> bool) b bs r, covered b -> ty_block b -> write_body b = Ok bs ->
+  forall (utf8_valid : list N -> bool) b bs r,
+    (forall s, Forall (fun b => b < 128) s -> utf8_valid s = true) ->
+    ty_block utf8_valid b -> write_body b = Ok bs ->
     read_body utf8_valid (block_type b) (lenN bs) (bs ++ r) = Ok (b, r).
 
 Definition md5_zero_witness : streaminfo :=
@@ -423,17 +408,18 @@ Proof.
   specialize (H (fun _ => true) (BStreaminfo md5_zero_witness)).
   assert (W : exists bs, write_body (BStreaminfo md5_zero_witness) = Ok bs).
   { vm_compute. eexists. reflexivity. }
-  destruct W as [bs W]. specialize (H bs [] I).
-  assert (T : ty_block (BStreaminfo md5_zero_witness)).
+  destruct W as [bs W]. specialize (H bs [] (fun _ _ => eq_refl)).
+  assert (T : ty_block (fun _ => true) (BStreaminfo md5_zero_witness)).
   { cbn. unfold ty_streaminfo. cbn. repeat split; try lia. repeat constructor; unfold byte; lia. }
   specialize (H T W). revert H. vm_compute in W. apply Ok_inj in W. subst bs. vm_compute. discriminate.
 Qed.
 
 Lemma c11_outside_known (utf8_valid : list N -> bool) b bs r :
-  covered b -> ty_block b -> ~ known_class b -> write_body b = Ok bs ->
+  (forall s, Forall (fun b => b < 128) s -> utf8_valid s = true) ->
+  ty_block utf8_valid b -> ~ known_class b -> write_body b = Ok bs ->
   read_body utf8_valid (block_type b) (lenN bs) (bs ++ r) = Ok (b, r).
 Proof.
-  intros Cv T K W. apply body_write_read; try assumption.
+  intros U T K W. apply body_write_read; try assumption.
   destruct b; cbn [canon_block known_class] in *; try exact I.
   unfold canon_streaminfo. destruct (si_md5 s) as [m|]; [|exact I].
   destruct (all_zero m); [contradiction K; reflexivity|reflexivity].
